@@ -325,6 +325,12 @@ func c18Random(c *core.Ctx, idx int) {
 	kind := Kinds[r.Intn(5)]
 	s := NewStack(kind, 0).Push("a", "b")
 	var log []string
+	if r.Chance(1, 8) {
+		// a stack its own validity policy currently rejects is still configurable (it merely renders as nothing)
+		s.SetValidityPolicy(func(...any) error { return errPolicyRejects })
+		log = append(log, "SetValidityPolicy(rejecting)")
+		c.Count("random.under-a-rejecting-validity-policy")
+	}
 	fail := func(key, msg string) {
 		c.Violate(key, fmt.Sprintf("%s on %s after [%s]", msg, kind, strings.Join(log, "; ")), map[string]any{"kind": kind, "calls": log})
 	}
@@ -438,7 +444,7 @@ func c18Random(c *core.Ctx, idx int) {
 				break
 			}
 			var spec []string
-			chars := []string{`"`, "'", "(", ")", "<", ">", "[", "]", "«", "»"}
+			chars := []string{`"`, "'", "(", ")", "<", ">", "[", "]", "«", "»", "Q", "q", "<b>", "<B>"} // (in use = the same string, letter case included)
 			if r.Bool() {
 				spec = []string{chars[r.Intn(len(chars))]}
 				if r.Bool() {
@@ -723,7 +729,7 @@ func c18RandomCond(c *core.Ctx, idx int) {
 				}
 				break
 			}
-			chars := []string{`"`, "'", "(", ")", "<", ">"}
+			chars := []string{`"`, "'", "(", ")", "<", ">", "x", "X"}
 			spec := []string{chars[r.Intn(len(chars))]}
 			if r.Bool() {
 				b := chars[r.Intn(len(chars))]
